@@ -301,7 +301,7 @@ def c08(ctx):
                 out.append(bad(R, key, 'the user future is polled outside the WaitingForFuture arm', fn=p.name))
         # task_finished is sent only after the user future completed, or on the cancel edge of the scheduler future
         takes = []
-        u = FieldUse(p, 'desync::SyncFuture')
+        u = FieldUse(p, None)
         for (bb, m, t) in u.calls.get('task_finished', []):
             if m == 'take':
                 takes.append(bb)
@@ -348,12 +348,41 @@ def c08(ctx):
     if not adt:
         out.append(undecided(R, key, 'SyncFuture not found'))
     else:
-        names = [f['name'] for f in adt['variants'][0]['fields']]
-        has_drop = bool(F.impls_of('core::ops::drop::Drop', 'desync::SyncFuture'))
-        if 'state' in names and 'task_finished' in names and names.index('state') < names.index('task_finished') and not has_drop:
-            out.append(ok(R, key, 'fields drop in declaration order: the user future (state) before the completion sender (task_finished); no Drop impl interferes'))
+        # leaves of the struct in drop order (declaration order, nested in-crate structs expanded; a struct with its own Drop runs that first)
+        leaves = []
+        drops_in_the_way = []
+
+        def relevant(name, depth=0):
+            a = F.adts.get(name)
+            if not a or a['kind'] != 'Struct' or depth > 4:
+                return False
+            for f in a['variants'][0]['fields']:
+                t = clean_ty(f['ty'])
+                if 'SyncFutureState' in t or 'oneshot::Sender' in t or relevant(ty_head(t), depth + 1):
+                    return True
+            return False
+
+        def walk(name, path, depth=0):
+            a = F.adts.get(name)
+            if not a or a['kind'] != 'Struct' or depth > 4 or not relevant(name):
+                return False
+            if F.impls_of('core::ops::drop::Drop', name):
+                drops_in_the_way.append(name)
+            for f in a['variants'][0]['fields']:
+                head = ty_head(clean_ty(f['ty']))
+                if not walk(head, path + [f['name']], depth + 1):
+                    leaves.append(('.'.join(path + [f['name']]), clean_ty(f['ty'])))
+            return True
+        walk('desync::SyncFuture', [])
+        fut = [i for i, (n, t) in enumerate(leaves) if 'SyncFutureState' in t]
+        snd = [i for i, (n, t) in enumerate(leaves) if 'oneshot::Sender' in t]
+        names = [n for n, t in leaves]
+        if len(fut) == 1 and len(snd) == 1 and fut[0] < snd[0] and not drops_in_the_way:
+            out.append(ok(R, key, 'fields drop in declaration order: the user future (%s) before the completion sender (%s); no Drop impl interferes' % (names[fut[0]], names[snd[0]])))
+        elif len(fut) != 1 or len(snd) != 1:
+            out.append(undecided(R, key, 'the state and the completion sender were not found among the fields %s' % names))
         else:
-            out.append(bad(R, key, 'the completion sender can be dropped before the user future (field order %s, Drop impl: %s): the queue continues while the cancelled operation is still alive' % (names, has_drop)))
+            out.append(bad(R, key, 'the completion sender can be dropped before the user future (field order %s, Drop impl: %s): the queue continues while the cancelled operation is still alive' % (names, bool(drops_in_the_way))))
     return out
 
 
@@ -1387,27 +1416,37 @@ DWS = 'desync::DrainWakerState'
 
 
 def _enum_swap_table(fn, enum_path):
-    """For the `mem::swap(&mut *guard, &mut tmp); match tmp {..}` idiom: variant -> (set of variants written back, set of Some/None given
-    to the Option result local)."""
+    """For the `mem::swap(&mut *guard, &mut tmp); match tmp {..}` / `match mem::replace(&mut *guard, X) {..}` idiom:
+    variant -> (set of variants the protected state is left in, set of Some/None given to the Option<Waker> result)."""
     table = {}
-    sw = None
+    cands = []
     for bb, b in enumerate(fn.blocks):
         t = b['term']
-        if t and t['k'] == 'switch' and not b['cleanup']:
+        if t and t['k'] == 'switch' and not b['cleanup'] and 'debug_assert' not in (t['sp'].get('mac') or ''):
             for s in b['stmts']:
                 if s['k'] == 'assign' and s['rv']['k'] == 'discr' and clean_ty(s['rv']['pl']['ty']) == enum_path:
-                    sw = (bb, t)
-    if not sw:
+                    cands.append((bb, t))
+    if not cands:
         return None
-    bb, t = sw
+    dom = fn.dominators()
+    # the decision is the test that comes first (dominates the other tests of the same value)
+    cands.sort(key=lambda c: len(dom.get(c[0], ())))
+    bb, t = cands[0]
     adt = fn.facts.adts.get(enum_path)
     if not adt:
         return None
+    # what the swap / replace leaves in the protected state until an arm overwrites it
+    default = set()
+    for b2, t2 in fn.calls():
+        name = t2['func'].get('fn') or ''
+        if name in ('core::mem::replace', 'core::mem::swap') and len(t2['args']) == 2:
+            for a in t2['args']:
+                e = fn.expr_of_operand(a)
+                if e[0] == 'agg' and e[2].startswith(enum_path + '::'):
+                    default.add(e[2].split('::')[-1])
+    listed = dict((str(val), tb) for val, tb in t['targets'])
     for v in adt['variants']:
-        tgt = None
-        for val, tb in t['targets']:
-            if str(val) == str(v['discr']):
-                tgt = tb
+        tgt = listed.get(str(v['discr']), t['otherwise'])
         if tgt is None:
             continue
         written, opt = set(), set()
@@ -1425,6 +1464,8 @@ def _enum_swap_table(fn, enum_path):
                     written.add(e[2].split('::')[-1])
                 if not s['pl']['p'] and e[0] == 'agg' and e[2] in ('core::option::Option::Some', 'core::option::Option::None') and 'Waker' in fn.local_ty(s['pl']['l']):
                     opt.add(e[2].split('::')[-1])
+        if not written:
+            written = set(default)
         table[v['name']] = (written, opt)
     return table
 
